@@ -28,7 +28,7 @@ func init() {
 			us = append(us, peerUnits(tier)...)
 			return us
 		},
-		QuickBudget:    90,
+		QuickBudget:    240,
 		ThoroughBudget: 900,
 	})
 }
